@@ -418,6 +418,9 @@ func main() {
 	for _, c := range crashed {
 		r.Violate("worker-crashed", "a worker process died (fatal runtime error or kill)", c, nil, nil)
 	}
+	if r.Replay == "" {
+		runConcurrentSessions(r) // two requests of different clients in flight (small; runs in this process)
+	}
 	c := r.P.Counters
 	for _, k := range []string{"av_live_session_resumed", "av_resumed_with_data", "av_forged_id_presented", "av_idle_expired_id_presented", "av_abs_expired_id_presented", "av_ended_id_presented", "av_request_on_reused_ctx", "av_reused_ctx_other_id_same_length",
 		"av_compound_requests", "av_compound_mw_write-after-destroy", "av_compound_st_write-after-destroy", "av_compound_mw_write-after-reset", "av_compound_mw_write-after-regenerate",
